@@ -90,6 +90,9 @@ func ikN(k string) uint64 {
 // body of element i; the element index is embedded so the scripted backend can recognise the call
 func dataFor(i int, e elem) string {
 	if e.Data == "bad" {
+		if e.Bad%4 == 3 {
+			return "" // no `data` member at all (`"data": null` is not undecodable: it decodes to the zero request)
+		}
 		switch coqAct(e.Act) {
 		case "ACreate":
 			return []string{`"x"`, `{"postings": 3}`, `[1]`}[e.Bad%3]
@@ -148,7 +151,11 @@ func body(in input) string {
 	for i, e := range in.Els {
 		a, _ := json.Marshal(e.Act)
 		k, _ := json.Marshal(e.IK)
-		parts = append(parts, fmt.Sprintf(`{"action":%s,"ik":%s,"data":%s}`, a, k, dataFor(i, e)))
+		if d := dataFor(i, e); d == "" {
+			parts = append(parts, fmt.Sprintf(`{"action":%s,"ik":%s}`, a, k))
+		} else {
+			parts = append(parts, fmt.Sprintf(`{"action":%s,"ik":%s,"data":%s}`, a, k, d))
+		}
 	}
 	return "[" + strings.Join(parts, ",") + "]"
 }
